@@ -18,6 +18,7 @@ import (
 	"strconv"
 	"strings"
 	"sync"
+	"sync/atomic"
 	"testing"
 	"time"
 
@@ -386,6 +387,10 @@ func RunProperty[C any](t *testing.T, p Property[C]) {
 	status := "ok"
 	requested := 0
 	defer func() {
+		if n := atomic.LoadInt64(&viaFlagsRuns); n > 0 {
+			ev.SetExtra("command_executions_built_by_flag_parsing", n)
+			ev.SetExtra("command_lines_refused_by_parse", atomic.LoadInt64(&viaFlagsRefused))
+		}
 		ev.write(status, requested, viol, time.Since(start).Seconds())
 	}()
 
